@@ -24,7 +24,21 @@ BAND8 = [0, 1, 2, 3] + list(range(118, 134))
 BAND16 = list(range(32755, 32776))
 
 
-def prog_ref(mnem, kind, direction, n, k=0, org=None, indirect=False):
+def filler_lines(n, filler):
+    """exactly n bytes of filler: RMB, or constant-offset indexed instructions (whose size estimate differs from RMB's) padded with RMB"""
+    if not n:
+        return []
+    if filler == "rmb":
+        return [" RMB {}".format(n)]
+    unit, text = {"idx8": (3, " LDA 100,X"), "idx16": (4, " LDD 1000,Y"), "idx8n": (3, " STA -100,U"), "ext": (3, " LDA $1234")}[filler]
+    k = n // unit
+    out = [text] * k
+    if n - k * unit:
+        out.append(" RMB {}".format(n - k * unit))
+    return out
+
+
+def prog_ref(mnem, kind, direction, n, k=0, org=None, indirect=False, filler="rmb"):
     """one referencing statement and its target, n filler bytes between them"""
     tgt = "T1" if k == 0 else ("T1+{}".format(k) if k > 0 else "T1-{}".format(-k))
     if kind == "pcr":
@@ -37,9 +51,9 @@ def prog_ref(mnem, kind, direction, n, k=0, org=None, indirect=False):
     if org is not None:
         lines.append(" ORG {}".format(org))
     if direction == "fwd":
-        lines += ["S1 {} {}".format(mnem, op)] + ([" RMB {}".format(n)] if n else []) + ["T1 NOP"]
+        lines += ["S1 {} {}".format(mnem, op)] + filler_lines(n, filler) + ["T1 NOP"]
     elif direction == "bwd":
-        lines += ["T1 NOP"] + ([" RMB {}".format(n)] if n else []) + ["S1 {} {}".format(mnem, op)]
+        lines += ["T1 NOP"] + filler_lines(n, filler) + ["S1 {} {}".format(mnem, op)]
     else:
         lines += ["T1 {} {}".format(mnem, op)]
     return lines
@@ -91,6 +105,14 @@ def cases(tier, seed):
             for direction in ("fwd", "bwd"):
                 for n in (0, 10, 20, 123, 124, 125, 126, 127, 128):
                     yield {"shape": "ref", "mnem": mnem, "kind": "pcr", "dir": direction, "n": n, "k": 0, "org": org, "ind": False}
+    # (b2) the same distances made of instructions instead of RMB (statements whose own size has a minimum and a maximum)
+    for mnem in ("LEAX", "LDY", "BRA", "LBRA"):
+        kind = "rel" if mnem in ("BRA", "LBRA") else "pcr"
+        for filler in ("idx8", "idx16", "idx8n", "ext"):
+            for direction in ("fwd", "bwd"):
+                for n in (range(100, 141) if mnem != "LBRA" else (126, 127, 128, 129)):
+                    for ind in ((False, True) if mnem == "LEAX" else (False,)):
+                        yield {"shape": "ref", "mnem": mnem, "kind": kind, "dir": direction, "n": n, "k": 0, "org": None, "ind": ind, "filler": filler}
     # (c) bare numeric n,PCR
     for mnem in ("LDA", "LDY", "LEAX", "LDX"):
         for v in c01.V16:
@@ -124,7 +146,7 @@ def cases(tier, seed):
 def build(case):
     sh = case["shape"]
     if sh == "ref":
-        return prog_ref(case["mnem"], case["kind"], case["dir"], case["n"], case["k"], case["org"], case["ind"])
+        return prog_ref(case["mnem"], case["kind"], case["dir"], case["n"], case["k"], case["org"], case["ind"], case.get("filler", "rmb"))
     if sh == "num":
         t = R.spell(case["v"], case["sp"]) + ",PCR"
         return [" {} {}".format(case["mnem"], "[" + t + "]" if case["ind"] else t), "ZZ9 NOP"]
@@ -160,8 +182,9 @@ def refs_of(case):
 def cell_of(case, mnem, kind, dclass):
     sh = case["shape"]
     if sh == "ref":
-        return "{}|{}{}|{}|{}|k={}|{}".format(mnem, kind, ".ind" if case["ind"] else "", case["dir"], dclass,
-                                             case["k"], "org" if case["org"] is not None else "noorg")
+        return "{}|{}{}|{}|{}|k={}|{}{}".format(mnem, kind, ".ind" if case["ind"] else "", case["dir"], dclass,
+                                               case["k"], "org" if case["org"] is not None else "noorg",
+                                               "" if case.get("filler", "rmb") == "rmb" else "." + case["filler"])
     if sh == "num":
         return "{}|num{}|{}|{}".format(mnem, ".ind" if case["ind"] else "", c01.vclass(case["v"]), case["sp"])
     if sh == "two":
@@ -294,7 +317,7 @@ def _d(x):
 def describe(tier):
     return {
         "alphabet": "(a) 19 short + 19 long branches, forward/backward/self, RMB filler n; targets L, L+-k; with ORG at 6 origins; "
-                    "(b) every indexed-capable mnemonic with L,PCR and [L,PCR], same sweeps; (c) bare n,PCR over V16 x 3 spellings; "
+                    "(b) every indexed-capable mnemonic with L,PCR and [L,PCR], same sweeps; (b2) distances 100..140 built from constant-offset indexed / extended instructions instead of RMB; (c) bare n,PCR over V16 x 3 spellings; "
                     "(d) two PCR statements (and PCR + short branch) referencing any of 5 labels around them, both gaps over 112..132"
                     + ("; three PCR statements, 6 reference shapes, three gaps over 112..132" if tier == "thorough" else ""),
         "bound": "n in 0..140 for {} mnemonics, boundary band {} for the rest; +-10 around 32767 for {}".format(
